@@ -38,7 +38,7 @@ import (
 )
 
 var (
-	memfs    = afero.NewMemMapFs()
+	memfs    = hutil.NewStrictFs()
 	initOnce sync.Once
 	services map[string]desc.MethodDescriptor
 )
